@@ -566,4 +566,200 @@ theorem idle_reconnects (c : Config) (st : State) (hw : st.wd = .idle) (hc : st.
   simp only [Nat.le_refl, if_true]
   exact reconnect_attempt c _
 
+/-! ## the watchdog runs while connected iff `reconnect.auto` -/
+
+/-- the watchdog is only ever started with `reconnect.auto`, and on a connected server connection it is running
+    (polling) whenever `reconnect.auto` is on -/
+def WInv (c : Config) (st : State) : Prop :=
+  (st.wd ≠ .off → c.reconnectAuto = true) ∧ (st.conn = .connected → c.reconnectAuto = true → st.wd = .idle)
+
+theorem winv_init (c : Config) : WInv c init := by simp [WInv, init]
+
+theorem winv_closeServer' (c : Config) (r : Reason) (st : State) (h : st.wd ≠ .off → c.reconnectAuto = true) :
+    WInv c (closeServer r st).1 := by
+  unfold closeServer
+  split
+  · rename_i hc
+    refine ⟨h, ?_⟩
+    intro hcc; rcases hc with hc | hc <;> simp [hc] at hcc
+  · refine ⟨?_, by simp⟩
+    intro hw; apply h
+    by_cases hr : r = .requested ∨ r = .eof <;> simp [hr] at hw
+    exact hw
+
+theorem winv_doLogin (c : Config) (st : State) (h : WInv c st) : WInv c (doLogin c st).1 := by
+  unfold doLogin
+  split
+  · exact ⟨h.1, h.2⟩
+  · exact h
+  · exact h
+  · exact winv_closeServer' c _ st h.1
+
+theorem winv_reconnect (c : Config) (st : State) (h : st.wd ≠ .off → c.reconnectAuto = true)
+    (hw : st.wd ≠ .off) : WInv c (reconnect c st).1 := by
+  have ha := h hw
+  unfold reconnect
+  split
+  · exact winv_doLogin c _ ⟨fun _ => ha, fun _ _ => rfl⟩
+  · exact winv_closeServer' c _ _ (fun _ => ha)
+
+theorem winv_tickWd (c : Config) (st : State) (h : WInv c st) (hi : Inv st) : WInv c (tickWd c st).1 := by
+  unfold tickWd
+  split
+  · exact h
+  · rename_i hw
+    split
+    · rename_i hc
+      refine ⟨fun _ => h.1 (by simp [hw]), ?_⟩
+      intro hcc; simp [hc.1] at hcc
+    · exact h
+  · rename_i n hw
+    split
+    · exact winv_reconnect c st h.1 (by simp [hw])
+    · refine ⟨fun _ => h.1 (by simp [hw]), ?_⟩
+      intro hcc
+      have := hi.2.1 n hw
+      simp [this] at hcc
+
+theorem winv_doStart (c : Config) (st : State) (h : WInv c st) : WInv c (doStart c st).1 := by
+  unfold doStart
+  simp only []
+  split
+  · exact ⟨h.1, h.2⟩
+  · split
+    · cases ha : c.reconnectAuto <;> simp [WInv, ha]
+    · exact winv_closeServer' c _ _ h.1
+
+theorem winv_doStop (c : Config) (st : State) (h : WInv c st) : WInv c (doStop st).1 := by
+  have hA : ({ st with wd := if covered .watchdog then .off else st.wd
+                       logConn := st.logConn && !covered .logConnections } : State).wd ≠ .off →
+      c.reconnectAuto = true := by
+    intro hw; apply h.1
+    by_cases hc : covered .watchdog = true <;> simp [hc] at hw
+    exact hw
+  have hB := winv_closeServer' c .requested _ hA
+  unfold doStop
+  simpa [WInv] using hB
+
+theorem winv_step (c : Config) (st : State) (op : Op) (h : WInv c st) (hi : Inv st) :
+    WInv c (step c st op).1 := by
+  cases op with
+  | start => simp only [step]; split
+             · exact h
+             · exact winv_doStart c st h
+  | login => simp only [step]; split
+             · exact winv_doLogin c st h
+             · exact h
+  | loginCut j d res ul =>
+    simp only [step]; split
+    · unfold doLoginCut
+      simp only []
+      split
+      · exact winv_doLogin c _ (by simpa [WInv] using h)
+      · have := winv_closeServer' c .writeError { st with session := true, users := true } h.1
+        simpa [WInv] using this
+    · exact h
+  | exec => simp only [step]; split <;> exact h
+  | populate => simp only [step]; split
+                · simpa [WInv] using h
+                · exact h
+  | search => simp only [step]; split
+              · simpa [WInv] using h
+              · exact h
+  | wishlistInterval => simp only [step]; split
+                        · simpa [WInv] using h
+                        · exact h
+  | potentialParents => simp only [step]; split
+                        · simpa [WInv] using h
+                        · exact h
+  | loss r => simp only [step]; split
+              · exact winv_closeServer' c r st h.1
+              · exact h
+  | tick => simp only [step]
+            exact winv_tickWd c _ (by simpa [WInv] using h) (by simpa [Inv] using hi)
+  | setSrvUp b => simpa [step, WInv] using h
+  | setSrvReply r => simpa [step, WInv] using h
+  | stop => simp only [step]; split
+            · exact winv_doStop c st h
+            · exact h
+
+theorem winv_run (c : Config) (ops : List Op) : ∀ st, WInv c st → Inv st →
+    WInv c (run c st ops).1 := by
+  induction ops with
+  | nil => intro st h _; exact h
+  | cons op ops ih =>
+    intro st h hi
+    simp only [run]
+    exact ih _ (winv_step c st op h hi) (inv_step c st op hi)
+
+/-! ## what a run of ticks after a loss shows -/
+
+theorem nocreds_run (c : Config) (hc : c.credsOk = false) : ∀ (n : Nat) (st : State), st.wd = .idle →
+    (run c st (List.replicate n .tick)).2 = [] := by
+  intro n
+  induction n with
+  | zero => intro st _; rfl
+  | succ n ih =>
+    intro st h
+    have h1 := nocreds_step c st hc h
+    have h2 := ih _ h1.1
+    simp [List.replicate_succ, run, h1.2, h2]
+
+theorem sleeping_ticks' (c : Config) : ∀ (n : Nat) (st : State), st.wd = .sleeping (n + 1) →
+    (run c st (List.replicate n .tick)).2 = [] ∧ (run c st (List.replicate n .tick)).1.wd = .sleeping 1 ∧
+    (run c st (List.replicate n .tick)).1.srvUp = st.srvUp := sleeping_ticks c
+
+/-- observations of the reconnect delay followed by the attempt: exactly those of one `reconnect` on a state with
+    the same server availability -/
+theorem idle_reconnect_obs (c : Config) (st : State) (hw : st.wd = .idle) (hc : st.conn = .closed)
+    (hk : c.credsOk = true) :
+    ∃ s2 : State, (run c st (List.replicate (reconnectTicks + 1) .tick)).2 = (reconnect c s2).2 ∧
+      s2.srvUp = st.srvUp := by
+  have h1 : step c st .tick = ({ st with pp := agePP st.pp, wd := .sleeping reconnectTicks }, []) := by
+    simp [step, tickWd, hw, hc, hk]
+  have hrep : List.replicate (reconnectTicks + 1) Op.tick =
+      Op.tick :: (List.replicate (reconnectTicks - 1) Op.tick ++ [Op.tick]) := by
+    simp [reconnectTicks, List.replicate]
+  have hs := sleeping_ticks c (reconnectTicks - 1) { st with pp := agePP st.pp, wd := .sleeping reconnectTicks }
+    (by simp [reconnectTicks])
+  obtain ⟨hs1, hs2, hs3⟩ := hs
+  refine ⟨{ (run c { st with pp := agePP st.pp, wd := .sleeping reconnectTicks }
+              (List.replicate (reconnectTicks - 1) .tick)).1 with
+            pp := agePP (run c { st with pp := agePP st.pp, wd := .sleeping reconnectTicks }
+              (List.replicate (reconnectTicks - 1) .tick)).1.pp }, ?_, ?_⟩
+  · rw [hrep]
+    simp only [run, h1, run_append, hs1, List.nil_append, List.append_nil]
+    simp only [step, tickWd, hs2]
+    simp
+  · simpa using hs3
+
+theorem reconnect_obs_attempt (c : Config) (st : State) :
+    Obs.attempt ∈ (reconnect c st).2 ∧
+    (Obs.loginSent ∈ (reconnect c st).2 ↔ (st.srvUp = true ∧ c.reconnectAuto = true)) := by
+  refine ⟨reconnect_attempt c st, ?_⟩
+  unfold reconnect
+  by_cases hu : st.srvUp = true
+  · by_cases ha : c.reconnectAuto = true
+    · simp only [hu, ha, if_true, true_and, iff_true]
+      apply List.mem_append_right
+      unfold doLogin
+      split <;> simp
+    · simp [hu, ha]
+  · simp only [hu]
+    simp [closeServer]
+
+theorem loss_ticks_obs (c : Config) (st : State) (r : Reason) (n : Nat) (hc : st.conn = .connected)
+    (hv : r ≠ .connectFailed) (hr : (r = .eof ∨ r = .readError) → st.reader = true) :
+    (run c st (.loss r :: List.replicate n .tick)).2 =
+      (closeServer r st).2 ++ (run c (closeServer r st).1 (List.replicate n .tick)).2 := by
+  simp only [run, step]
+  rw [if_pos ⟨hc, hv, hr⟩]
+
+theorem closeServer_connected (r : Reason) (st : State) (hc : st.conn = .connected) :
+    (closeServer r st).1.conn = .closed ∧
+    (closeServer r st).1.wd = (if r = .requested ∨ r = .eof then .off else st.wd) ∧
+    (closeServer r st).1.srvUp = st.srvUp ∧
+    Obs.attempt ∉ (closeServer r st).2 ∧ Obs.loginSent ∉ (closeServer r st).2 := by
+  simp [closeServer, hc]
+
 end AioslskVerif.Session
